@@ -29,6 +29,11 @@ RULE = ("schedule space: task = fn entry, r <= 2 progress reports, return | rais
         "conversion of a dictionary or of an entry is visible as a deeper nesting. "
         "Plus sampled schedules (k <= 6, set_progress_callback, no mapping function, result dict without 'results', "
         "extra worker steps) and an argument stream (positional / keyword / preset / extra positional -> max_samples / "
+        "exception shapes: every entry of the failure alphabet (no argument, one string, one non-string (int, tuple, "
+        "None, float, bytes, list, another exception), several arguments, OSError, user classes with custom __init__ / "
+        "__str__ / swallowed arguments, subclass of KeyError, raise-from, raised-while-handling, assert, empty and "
+        "multi-line strings; BaseExceptions and exceptions whose str() raises) x sync/async x issuer x presets x 3 "
+        "schedules, the stop message compared with '<type>: <str(e)>' and checked to be a string; "
         "passed twice / unknown / too many / with and without the progress_callback keyword; rejected execute followed "
         "by a valid one). "
         "Non-trivial: at least one caller action falls strictly between execute and the end of the task, or the "
@@ -54,7 +59,104 @@ EXPLANATION = ("The model follows /repo as it is now (after fix commits 5d55599b
 WATCHDOG = 10.0
 PARALLEL = 1
 NAMES = {0: "max_samples", 1: "progress_callback"}
-EXC_TYPES = [ValueError, RuntimeError, ArithmeticError]
+
+
+class StrFailure(Exception):
+    """raised by the __str__ of an unprintable object"""
+
+
+class Unprintable:
+    def __str__(self):
+        raise StrFailure("cannot print")
+    __repr__ = __str__
+
+
+class UserError(Exception):                 # user-defined, custom __init__ keeping an attribute, custom __str__
+    def __init__(self, code):
+        self.code = code
+
+    def __str__(self):
+        return f"user error {self.code}"
+
+
+class UserErrorNoArgs(Exception):           # custom __init__ that does not forward its arguments
+    def __init__(self, a, b="b"):
+        super().__init__()
+        self.a, self.b = a, b
+
+
+class UserKeyError(KeyError):               # user subclass of a built-in with a special __str__
+    pass
+
+
+class UserStrRaises(Exception):             # an Exception whose own __str__ raises
+    def __str__(self):
+        raise StrFailure("cannot print")
+
+
+def _chained(m):
+    try:
+        raise KeyError(m)
+    except KeyError as k:
+        e = ValueError(f"outer {m}")
+        e.__cause__ = k
+        return e
+
+
+def _context(m):
+    try:
+        {}[m]
+    except KeyError:
+        try:
+            raise RuntimeError(m)           # raised while handling another exception: __context__ is set
+        except RuntimeError as e:
+            return e
+
+
+# the task-failure alphabet ranges over exception SHAPES: (label, maker(m)).  The job must end ERROR with a string
+# message "<type name>: <message>" for every one of them.
+EXC_SHAPES = [
+    ("one string", lambda m: ValueError(f"message {m}")),
+    ("no argument", lambda m: RuntimeError()),
+    ("one int (failed dict lookup)", lambda m: KeyError(m)),
+    ("one string in a KeyError (quoted by str)", lambda m: KeyError(f"k{m}")),
+    ("one tuple", lambda m: ValueError((m, "x"))),
+    ("one None", lambda m: TypeError(None)),
+    ("one float", lambda m: ArithmeticError(m + 0.5)),
+    ("another exception as only argument", lambda m: RuntimeError(ZeroDivisionError(f"inner {m}"))),
+    ("one bytes", lambda m: ValueError(b"raw %d" % m)),
+    ("several arguments", lambda m: ValueError("a", m, None)),
+    ("OSError(errno, text)", lambda m: OSError(m, "text")),
+    ("user class with attribute and __str__", lambda m: UserError(m)),
+    ("user class swallowing its arguments", lambda m: UserErrorNoArgs(m)),
+    ("user subclass of KeyError", lambda m: UserKeyError(m)),
+    ("raise ... from ...", _chained),
+    ("raised while handling another", _context),
+    ("empty string", lambda m: ValueError("")),
+    ("multi-line non-ASCII string", lambda m: RuntimeError(f"line {m}\nligne \u00e9\u4e2d")),
+    ("assert without message", lambda m: AssertionError()),
+    ("StopIteration(value)", lambda m: StopIteration(m)),
+    ("one list", lambda m: LookupError([m, m])),
+]
+# what the wrapper does not turn into ERROR (model outcome OEscape): BaseExceptions that are not Exceptions, and
+# exceptions whose str() itself raises inside the handler
+ESCAPE_SHAPES = [
+    ("custom BaseException", lambda m: Escape(f"escape {m}")),
+    ("SystemExit", lambda m: SystemExit(f"escape {m}")),
+    ("KeyboardInterrupt", lambda m: KeyboardInterrupt()),
+    ("GeneratorExit", lambda m: GeneratorExit()),
+    ("Exception with an unprintable argument", lambda m: ValueError(Unprintable())),
+    ("Exception whose __str__ raises", lambda m: UserStrRaises(m)),
+]
+
+
+def expected_messages(out):
+    """the acceptable stop messages for the raised shape: '<type>: <str(e)>' (and '<type>: <str(only argument)>')"""
+    e = EXC_SHAPES[out[1] % len(EXC_SHAPES)][1](out[2])
+    acc = {type(e).__name__ + ": " + str(e)}
+    if len(e.args) == 1:
+        acc.add(type(e).__name__ + ": " + str(e.args[0]))
+    return acc
 
 
 class HarnessFailure(Exception):
@@ -112,6 +214,7 @@ class Run:
         self.sync_thread = None
         self.sync_outcome = None
         self.inline_result = None
+        self.raised = None
         self.cbs = {}
         names, cmd0, mapp0, has_map, ucb0 = cfg
         delta = {"command": {name_of(k): v for k, v in cmd0}, "mapping": {name_of(k): v for k, v in mapp0}}
@@ -186,10 +289,10 @@ class Run:
         if out[0] == 0:
             return result(pay)
         if out[0] == 1:
-            raise EXC_TYPES[out[1] % len(EXC_TYPES)](f"message {out[2]}")
-        if pay % 2:
-            raise SystemExit(f"escape {pay}")
-        raise Escape(f"escape {pay}")
+            self.raised = EXC_SHAPES[out[1] % len(EXC_SHAPES)][1](out[2])
+            raise self.raised
+        self.raised = ESCAPE_SHAPES[pay % len(ESCAPE_SHAPES)][1](pay)
+        raise self.raised
 
     # ---- controller side
     def wait_arrival(self):
@@ -235,7 +338,7 @@ class Run:
                 if flags != want or props != want or str(s) != s.status.name or s() != s.status.name \
                         or s.completed != (s.status.value in (2, 3, 4)) or job.is_complete != s.completed:
                     return ["status-flags-inconsistent", flags, props, s.status.name]
-                return [8, [0, s.status.value, enc_progress(s.progress), enc_phase(s._running_phase), enc_msg(s.stop_message)]]
+                return [8, [0, s.status.value, enc_progress(s.progress), enc_phase(s._running_phase), enc_msg(s.stop_message, self.prog[1])]]
             if tag == 2:
                 r = job.cancel()
                 return [9] if r is None else ["cancel-returned", repr(r)]
@@ -276,7 +379,7 @@ class Run:
         except AttributeError:
             return [2]
         except RuntimeError as e:
-            return enc_get_error(e)
+            return enc_get_error(e, self.prog[1])
 
     def start(self, ev):
         """an execute the model predicts to be accepted: the worker proceeds to the first gate"""
@@ -335,12 +438,12 @@ class Run:
                 kind, v = self.sync_outcome
                 if kind == "ret":
                     obs.append([7, [0, enc_ores(v)]])
-                elif isinstance(v, (Escape, SystemExit)):
-                    obs.append([5])
+                elif v is self.raised and self.prog[1][0] == 2 or isinstance(v, StrFailure):
+                    obs.append([5])     # the task's own exception (or the failure of its str()) came out of execute_sync
                 elif isinstance(v, AttributeError):
                     obs.append([7, [2]])
                 elif isinstance(v, RuntimeError):
-                    obs.append([7, enc_get_error(v)])
+                    obs.append([7, enc_get_error(v, self.prog[1])])
                 else:
                     obs.append(["execute_sync-raised", type(v).__name__, str(v)])
             else:
@@ -367,7 +470,7 @@ class Run:
         w = job._worker
         d = job._delta_parameters
         ucb = job._user_cb
-        return [s._status.value, enc_progress(s._running_progress), enc_phase(s._running_phase), enc_msg(s._stop_message),
+        return [s._status.value, enc_progress(s._running_progress), enc_phase(s._running_phase), enc_msg(s._stop_message, self.prog[1]),
                 int(bool(job._cancel_requested)), 0 if w is None else (1 if w.is_alive() else 2),
                 enc_ores(job._results), int(job._result_mapping_function is not None),
                 [] if ucb is None else getattr(ucb, "cid", -1),
@@ -386,15 +489,15 @@ def enc_phase(ph):
     return 0 if ph is None else int(ph[5:])
 
 
-def enc_msg(m):
+def enc_msg(m, out=None):
     if m is None:
         return []
+    if not isinstance(m, str):
+        return ["message-not-a-string", repr(m)]
     if m == "User has canceled the job":
         return [1]
-    for i, t in enumerate(EXC_TYPES):
-        pre = t.__name__ + ": message "
-        if m.startswith(pre) and m[len(pre):].isdigit():
-            return [2, i, int(m[len(pre):])]
+    if out is not None and out[0] == 1 and m in expected_messages(out):
+        return [2, out[1], out[2]]
     return ["unrecognised-message", m]
 
 
@@ -444,13 +547,13 @@ def norm_res(r):
     return [r[0], r[1], sorted(r[2]), nconv, sorted(r[4]), ents]
 
 
-def enc_get_error(e):
+def enc_get_error(e, out=None):
     m = str(e)
     if m == "The job is still running, results are not available yet.":
         return [1]
     if m.startswith("The job failed: "):
         rest = m[len("The job failed: "):]
-        return [3, enc_msg(None if rest == "None" else rest)]
+        return [3, enc_msg(None if rest == "None" else rest, out)]
     if m == "Results are not available":
         return [4]
     return ["unrecognised-error", m]
@@ -664,7 +767,10 @@ def describe(cfg, prog, inline, events):
     return {"param_names": [name_of(k) for k in names], "preset_command": {name_of(k): v for k, v in cmd0},
             "preset_mapping": {name_of(k): v for k, v in mapp0}, "mapping_function": bool(has_map),
             "callback_at_construction": ucb0, "task": {"progress": [list(s) for s in steps],
-            "outcome": ["return", "raise Exception", "raise BaseException"][out[0]], "cooperative": bool(coop),
+            "outcome": ["return", "raise Exception", "raise BaseException"][out[0]],
+            "exception": (EXC_SHAPES[out[1] % len(EXC_SHAPES)][0] + f" (m={out[2]})" if out[0] == 1 else
+                          ESCAPE_SHAPES[pay % len(ESCAPE_SHAPES)][0] if out[0] == 2 else None),
+            "cooperative": bool(coop),
             "result_key": {0: "results", 1: "results_list"}.get(shape, "other"),
             "iterations": [{name_of(k): v for k, v in it} for _, it in iters]},
             "actions_issued_by": "worker thread (callback/task body)" if inline else "controller thread",
@@ -769,6 +875,13 @@ def spec_checks(ctx):
             "is reported SUCCESS with results None by an asynchronous job (the dead-worker repair in LocalJob.status); "
             "a synchronous job stays RUNNING",
             ok=lambda o: o[0] == 8 and o[1][0] == 0 and o[1][1] == 3)
+    # 2b. the same for an Exception that cannot be rendered: str(e) raises inside the wrapper's own handler (open)
+    prog = ((), (2,), False, 0, 5, 6)
+    witness(ctx, "unprintable-exception-task-reported-success", std_cfg, prog, False, events, 2, "status ERROR (3)",
+            "a task that raises an Exception whose str() raises (unprintable argument or __str__) makes "
+            "_call_fn_safe's own handler fail: an asynchronous job is then reported SUCCESS with results None, a "
+            "synchronous job stays RUNNING and the str() failure comes out of execute_sync",
+            ok=lambda o: o[0] == 8 and o[1][0] == 0 and o[1][1] == 3)
     # 3. the progress_callback keyword must be accepted and the callback must receive the progress (repaired by 53f68db6)
     prog = (((500, 1),), (0,), False, 0, 5, 6)
     events = [(4, 0, (3,), ((1, 7),), False), (0,), (0,)]
@@ -857,13 +970,13 @@ def run(ctx):
     cfg = ((10,), ((10, None),), ((20, None),), True, 7)
     for is_async in (0, 1):
         for inline in (False, True):
-            for out in ((0,), (1, 1, 3), (2,)):
+            for out in ((0,), (1, 2, 3), (2,)):       # return / KeyError(3) / a BaseException
                 for coop in (False, True):
                     if coop and out[0] != 0:
                         continue      # a cooperative task differs only by its early return
                     for r in (0, 1, 2):
                         steps = tuple((250 * (j + 1), j + 1) for j in range(r))
-                        prog = (steps, out, coop, 0, 5 if out[0] != 2 else 4 + is_async, 6)
+                        prog = (steps, out, coop, 0, 5 if out[0] != 2 else 2 * int(inline) + is_async, 6)
                         main = (4, is_async, (3,), (), False)
                         second = (4, is_async, (3,), (), False)
                         for k in range((kmax if r <= 1 or not ctx.quick() else 2) + 1):
@@ -894,7 +1007,7 @@ def run(ctx):
         is_async = g.below(2)
         r = g.below(4)
         steps = tuple((g.choice([0, 125, 250, 500, 750, 1000]), g.below(4)) for _ in range(r))
-        out = g.choice([(0,), (0,), (1, g.below(3), g.below(50)), (2,)])
+        out = g.choice([(0,), (0,), (1, g.below(len(EXC_SHAPES)), g.below(50)), (2,)])
         shape = g.choice([0, 0, 1, 1, 2])
         prog = (steps, out, bool(g.below(2)), shape, g.below(100), 100 + g.below(100), rand_iters(g) if shape == 1 else ())
         cfg = ((10, 11), ((10, None), (11, 4 if g.below(2) else None)), ((20, None),) if g.below(2) else (),
@@ -969,15 +1082,36 @@ def run(ctx):
         ev.append((4, is_async, a, kws, bool(g.below(2))))
         ev += [(0,), (1,), (0,), (3,), (3,)]
         shape = g.choice([0, 0, 1])
-        prog = (((500, 1),), g.choice([(0,), (0,), (1, 0, 1)]), False, shape, g.below(50), 99,
+        prog = (((500, 1),), g.choice([(0,), (0,), (1, g.below(len(EXC_SHAPES)), 1)]), False, shape, g.below(50), 99,
                 rand_iters(g) if shape == 1 else ())
         cases.append((cfg, prog, bool(g.below(2)), ev))
     run_cases(ctx, cases, "arguments", reported)
     ctx.streams["arguments"] = len(cases)
 
+    # ---------------------------------------------------------------- exception shapes
+    # every shape of the failure alphabet x sync/async x issuer x with/without presets x three schedules: the job
+    # must end ERROR with a string message, refuse results, not stay RUNNING; execute_sync must end as the model says
+    cases = []
+    for ty in range(len(EXC_SHAPES) + len(ESCAPE_SHAPES)):
+        out = (1, ty, 3 + ty) if ty < len(EXC_SHAPES) else (2,)
+        pay = 5 if out[0] == 1 else ty - len(EXC_SHAPES)
+        for is_async in (0, 1):
+            for inline in (False, True):
+                for preset in (False, True):
+                    cfg = ((10,), ((10, None), (14, 44)) if preset else (), ((20, None),) if preset else (),
+                           preset, 7 if preset else None)
+                    main = (4, is_async, (3,), (), bool(inline and not is_async))
+                    prog = (((500, 1),), out, False, 0, pay, 6)
+                    for sched in ([main, (0,), (1,), (0,), (1,), (3,), (3,), (0,), (1,)],
+                                  [main, (0,), (2,), (0,), (3,), (1,)],
+                                  [main, (0,), (0,), main, (1,), (3,)]):
+                        cases.append((cfg, prog, inline, sched))
+    run_cases(ctx, cases, "exception-shapes", reported)
+    ctx.streams["exception-shapes"] = len(cases)
+
     # ---------------------------------------------------------------- the specification on the refuted statements
     spec_checks(ctx)
-    ctx.streams["specification-witnesses"] = 3
+    ctx.streams["specification-witnesses"] = 4
     hist_reqs = historical_model_checks(ctx)
     for sig, cnt in sorted(reported.items()):
         ctx.notes.append(f"{sig}: {cnt} case(s)")
